@@ -119,6 +119,10 @@ func (p *planner) multiDeleteWorlds() {
 			if pi%6 == 5 {
 				historyMode(&j, 1+(pi/6)%2, orng)
 			}
+			// two orders in three: a restarted twin forked while one of the deleters is parked
+			if pi%3 != 1 {
+				twinMode(&j, pi/3)
+			}
 			p.jobs <- j
 		}
 		r.Note("multi_delete_orders", sp.note)
@@ -156,6 +160,9 @@ func (p *planner) multiDeleteWorlds() {
 			j := job{family: "multi-delete", w: w, wid: wid, order: order, corpus: (o+i)%2 == 0, kv: p.kinds[(i+o)%len(p.kinds)], every: every, search: o == 0}
 			if o >= 2 {
 				historyMode(&j, 1+(o+i)%4, orng)
+			}
+			if o >= 1 {
+				twinMode(&j, o+i)
 			}
 			p.jobs <- j
 		}
